@@ -21,6 +21,13 @@ def dir (lon lat : ℝ) : V3 :=
 
 def dot (u v : V3) : ℝ := u.1 * v.1 + u.2.1 * v.2.1 + u.2.2 * v.2.2
 
+/-- Unit vector towards the North (increasing latitude) at the direction (lon, lat), degrees. -/
+def northV (lon lat : ℝ) : V3 :=
+  (-(sin (rad lat) * cos (rad lon)), -(sin (rad lat) * sin (rad lon)), cos (rad lat))
+
+/-- Unit vector towards the East (increasing longitude) at longitude `lon`, degrees. -/
+def eastV (lon : ℝ) : V3 := (-sin (rad lon), cos (rad lon), 0)
+
 /-- Frame rotation about the x axis by `a`: equatorial → ecliptical for `a` = obliquity. -/
 def rotX (a : ℝ) (v : V3) : V3 :=
   (v.1, v.2.1 * cos a + v.2.2 * sin a, -(v.2.1 * sin a) + v.2.2 * cos a)
